@@ -39,7 +39,7 @@ PARTS = {"sim": {"check": check_case, "strategy": _strategy, "budget": {"quick":
 
 
 def vacuity(merged, tier):
-    for cls, lim in (("fills", 0.4), ("self_trades", 0.1), ("round_ge3", 0.03), ("parties_ge3", 0.05)):
+    for cls, lim in (("fills", 0.16), ("self_trades", 0.04), ("round_ge3", 0.012), ("parties_ge3", 0.02)):
         if frac(merged, "sim", cls) < lim:
             return f"class {cls} below {lim:.0%} of runs"
     return None
